@@ -375,7 +375,7 @@ class Vocabulary(Mapping):
         """
         if keys is None:
             keys = self._keys
-        keys = set(keys)
+        keys = set(k for k in keys if k in self._key2idx)
 
         missing_keys = set(k for k in keys if k not in other)
 
